@@ -264,6 +264,34 @@ def _process(unit, tpath, repo):
             _emit_auto_helpers(unit, [x.strip(",") for x in rest if x.strip(",")], src_of, [r for r in kv.get("rules", "").split(",") if r], rel, i + 1)
             i += 1
             continue
+        if s.startswith("//@typeof "):
+            # //@typeof NAME = <file> :: fn <fname> :: <param>   -- a hole in the overlay filled with the parameter's REAL type, so
+            # that a stub written for a function the unit does not extract (an FFI wrapper) keeps following its real signature
+            m = re.match(r"//@typeof\s+(\w+)\s*=\s*(\S+)\s*::\s*fn\s+(\w+)\s*::\s*(\w+)\s*$", s)
+            if not m:
+                raise Inconclusive("template error %s:%d: bad //@typeof" % (rel, i + 1))
+            src = src_of(m.group(2))
+            ty = None
+            for fm in re.finditer(r"\bfn\s+%s\s*\(([^)]*)\)" % re.escape(m.group(3)), src):
+                for par in _split_params(fm.group(1)):
+                    pm = re.match(r"\s*(?:mut\s+)?(\w+)\s*:\s*(.+?)\s*$", par, re.S)
+                    if pm and pm.group(1) == m.group(4):
+                        ty = " ".join(pm.group(2).split())
+                        break
+                if ty:
+                    break
+            if ty is None:
+                raise Inconclusive("lost anchor: parameter %s of fn %s in %s" % (m.group(4), m.group(3), m.group(2)))
+            if not re.fullmatch(r"u8|u16|u32|u64|usize|i32|i64|isize", ty):
+                raise Inconclusive("parameter %s of fn %s has type `%s`, which the overlay's stub does not cover" % (m.group(4), m.group(3), ty))
+            unit.typeholes = getattr(unit, "typeholes", {})
+            unit.typeholes[m.group(1)] = ty
+            i += 1
+            continue
+        if getattr(unit, "typeholes", None) and not s.startswith("//@"):
+            ln = re.sub(r"\b(%s)\b" % "|".join(map(re.escape, unit.typeholes)), lambda mm: unit.typeholes[mm.group(1)], ln)
+            lines[i] = ln
+            s = ln.strip()
         if s.startswith("//@lits"):
             unit.emit(rulesmod.lits_module(), {"kind": "gen", "file": "<generated byte-literal constants (rule R22)>", "line": 0})
             i += 1
@@ -438,6 +466,23 @@ def _local_renaming(unit_name, qual, body):
 
 def _rename_idents(text, ren):
     return re.sub(r"(?<![\w.])(%s)(?!\w)" % "|".join(re.escape(k) for k in ren), lambda m: ren[m.group(1)], text)
+
+
+def _split_params(text):
+    out, depth, cur = [], 0, ""
+    for ch in text:
+        if ch in "<([":
+            depth += 1
+        elif ch in ">)]":
+            depth -= 1
+        if ch == "," and depth == 0:
+            out.append(cur)
+            cur = ""
+        else:
+            cur += ch
+    if cur.strip():
+        out.append(cur)
+    return out
 
 
 def _emit_body(unit, fnrec, dirs):
